@@ -56,6 +56,30 @@ objects (classes that define `__len__` / `__bool__`; the default for `Option T` 
 `for` targets whose declaration `x = None` before the loop is skipped (the translator checks that `x` is read only
 inside that loop or inside `raise` statements, whose arguments are not translated).
 
+Further constructs (added for `Op.increment`, `FldExporter.write_from_scope`, `construction_arguments`; their
+run-time primitives are in `Base/PyList.lean`, which the `imports` of the generated file must contain):
+
+* a local of type `Option Int` / `Option Nat` (a parameter `int | None`): `v is None`, `v is not None`; `==` / `!=`
+  with a number compare as optionals (`None == 0` is `False`); in arithmetic, ordering and as an index it is
+  dereferenced (`None < 0` is a `TypeError`, the error `.internal`);
+* `l[i]` with an integer index (`Py.nthInt`: a negative index counts from the end, `IndexError` out of range),
+  index assignment `l[i] = e` and `l[i] += e` on a list local (`Py.setNat` / `Py.setInt`; the local receives the
+  updated list - Python mutates the object in place, see `inout` for the aliasing with the caller's list);
+* a *self-recursive call* `r = F(args)` (profile: `self_call` = the call pattern with one hole per parameter,
+  `rec_fuel` = bound on the recursion depth, `inout` = `{parameter: local}` for list parameters that the function
+  mutates in place): the function becomes `F.rec : Nat -> params -> F.S -> Py.M F.S` (fuel exhausted = `.fuel`),
+  the call runs `F.rec fuel args {}`, takes the returned value (every path must end in `return e`) and copies the
+  callee's final list back into the caller's argument local for every `inout` parameter;
+* `a ** b` (natural exponent), `max(a, b)` / `min(a, b)` (integers: `max` / `min`; floats: `X.pymax` / `X.pymin`),
+  list literals `[a, b]`, `[e] * n` (`List.replicate`), a list comprehension with one generator and a pure element
+  (`List.map`), a conditional expression whose branches are `Nat` and `Int` (coerced to `Int`), f-strings whose
+  parts are strings, `+` on strings;
+* a dictionary that is only built and iterated is a list of pairs in insertion order: a dictionary comprehension
+  `{k: v for a, b in it if c}` is `List.map` after `List.filter`, `for a, b in d.items()` iterates over the list;
+* a generator-based context manager `<enter statements>; try: yield; finally: <exit statements>` is translated as
+  two functions (profile `part`: `"enter"` = the statements up to the `yield`, `"exit"` = the `finally` block, run
+  on a record of the same locals: the state at the `yield` with whatever the `with` body did to the object).
+
 Anything outside the subset raises `Untranslatable` - the tie is then reported as broken (never silently skipped).
 """
 from __future__ import annotations
@@ -201,6 +225,7 @@ class Fn:
         for n in ast.walk(self.fdef):
             if isinstance(n, ast.Name) and n.id in declared and n.id in LEAN_RESERVED:
                 n.id = mangle(n.id)
+        self.selfcall = ast.parse(profile["self_call"], mode="eval").body if profile.get("self_call") else None
         self.ret_ty = profile.get("ret")
         if self.ret_ty:
             self.locals["ret"] = f"Option {paren(self.ret_ty)}"
@@ -347,6 +372,8 @@ class Fn:
 
     # ---------------------------------------------------------------- expressions
     def var(self, name):
+        if name in getattr(self, "bound", {}):
+            return E(*self.bound[name])
         name = self.rebound.get(name, name)
         if name in self.consts:
             return self.lit(self.consts[name])
@@ -457,6 +484,9 @@ class Fn:
             return self.lit(self.const_of(node))
         except KeyError:
             pass
+        except Untranslatable:
+            if isinstance(node, (ast.Constant, ast.Name)):
+                raise
         if isinstance(node, ast.Constant):
             return self.lit(node.value)
         if isinstance(node, ast.Name):
@@ -497,7 +527,24 @@ class Fn:
         if isinstance(node, ast.Compare):
             if len(node.ops) != 1:
                 raise Untranslatable("chained comparison")
+            if isinstance(node.ops[0], (ast.Is, ast.IsNot)):
+                c = node.comparators[0]
+                l = self.ce(node.left)
+                if not (isinstance(c, ast.Constant) and c.value is None and l.ty.startswith("Option ")):
+                    raise Untranslatable(f"'is' other than `<optional> is None`: {ast.unparse(node)}")
+                return self.bind1(l, lambda x: (f"({x}).isNone" if isinstance(node.ops[0], ast.Is) else f"({x}).isSome"), "Bool")
             op, l, r = node.ops[0], self.ce(node.left), self.ce(node.comparators[0])
+            optn = ("Option Int", "Option Nat")
+            if isinstance(op, (ast.Eq, ast.NotEq)) and (l.ty in optn) != (r.ty in optn) and (l.ty in ("Nat", "Int") or r.ty in ("Nat", "Int")):
+                # `None == 0` is False (no exception): compare as optionals
+                o, n = (l, r) if l.ty in optn else (r, l)
+                n = self.toInt(n) if o.ty == "Option Int" else n
+                if n.ty != o.ty[len("Option "):]:
+                    raise Untranslatable(f"comparison of {l.ty} with {r.ty}: {ast.unparse(node)}")
+                n = self.bind1(n, lambda x: f"(some {x})", o.ty)
+                l, r = (o, n) if l.ty in optn else (n, o)
+            elif isinstance(op, (ast.Lt, ast.LtE, ast.Gt, ast.GtE)):
+                l, r = self.num(l), self.num(r)
             if isinstance(op, (ast.In, ast.NotIn)):
                 neg = isinstance(op, ast.NotIn)
                 if r.ty.startswith("List "):
@@ -519,13 +566,22 @@ class Fn:
             sym = {ast.Lt: "<", ast.LtE: "≤", ast.Gt: ">", ast.GtE: "≥"}[type(op)]
             return self.bind2(l, r, lambda a, b: f"(decide ({a} {sym} {b}))", "Bool")
         if isinstance(node, ast.BinOp):
-            l, r = self.ce(node.left), self.ce(node.right)
+            if isinstance(node.op, ast.Mult) and isinstance(node.left, ast.List) and len(node.left.elts) == 1:
+                x, n = self.ce(node.left.elts[0]), self.num(self.ce(node.right))
+                if n.ty == "Nat":
+                    return self.bind2(x, n, lambda a, b: f"(List.replicate {b} {a})", f"List {paren(x.ty)}")
+            l, r = self.num(self.ce(node.left)), self.num(self.ce(node.right))
             if isinstance(node.op, (ast.Add, ast.Sub, ast.Mult)) and {l.ty, r.ty} & {"Nat", "Int", "X Rat"}:
                 # Python's bool is an int: a truth value next to a number counts 0 / 1
                 if l.ty == "Bool":
                     l = self.bind1(l, lambda x: f"({x}).toNat", "Nat")
                 if r.ty == "Bool":
                     r = self.bind1(r, lambda x: f"({x}).toNat", "Nat")
+            if isinstance(node.op, ast.Pow) and l.ty in ("Nat", "Int") and r.ty == "Nat":
+                ty = l.ty
+                return self.bind2(l, r, lambda a, b: f"({a} ^ {b})", ty)
+            if isinstance(node.op, ast.Add) and l.ty == r.ty == "String":
+                return self.bind2(l, r, lambda a, b: f"({a} ++ {b})", "String")
             if isinstance(node.op, ast.BitAnd) and l.ty == r.ty == "Nat":
                 return self.bind2(l, r, lambda a, b: f"({a} &&& {b})", "Nat")
             if isinstance(node.op, ast.BitOr) and l.ty == r.ty == "Nat":
@@ -546,6 +602,8 @@ class Fn:
             raise Untranslatable(f"operator {type(node.op).__name__} on {l.ty}, {r.ty}")
         if isinstance(node, ast.IfExp):
             c, a, b = self.truthy(self.ce(node.test)), self.ce(node.body), self.ce(node.orelse)
+            if a.ty != b.ty and a.ty in ("Nat", "Int") and b.ty in ("Nat", "Int"):
+                a, b = self.toInt(a), self.toInt(b)
             if a.ty != b.ty:
                 raise Untranslatable("conditional expression with different types")
             if c.pure and a.pure and b.pure:
@@ -567,6 +625,10 @@ class Fn:
                 if i.ty == "Nat":
                     return self.bind2(base, i, lambda a, b: f"(Py.nth {a} {b})", elem_type(base.ty)).__class__(
                         *(self._impure(self.bind2(base, i, lambda a, b: f"(Py.nth {a} {b})", elem_type(base.ty)))))
+                i = self.num(i)
+                if i.ty in ("Nat", "Int"):
+                    prim = "Py.nth" if i.ty == "Nat" else "Py.nthInt"
+                    return self.partial2(base, i, lambda a, b: f"({prim} {a} {b})", elem_type(base.ty))
             raise Untranslatable(f"subscript {ast.unparse(node)} on {base.ty}")
         if isinstance(node, ast.Call):
             f = node.func
@@ -575,8 +637,76 @@ class Fn:
             if isinstance(f, ast.Attribute) and f.attr == "pop" and not node.args:
                 base = self.ce(f.value)
                 raise Untranslatable("pop() as an expression must be the whole right-hand side of an assignment or an argument of append")
+            if isinstance(f, ast.Name) and f.id in ("max", "min") and len(node.args) == 2 and not node.keywords:
+                a, b = self.num(self.ce(node.args[0])), self.num(self.ce(node.args[1]))
+                if a.ty == "X Rat" or b.ty == "X Rat":
+                    return self.bind2(self.toX(a), self.toX(b), lambda x, y: f"(X.py{f.id} {paren(x)} {paren(y)})", "X Rat")
+                if a.ty in ("Nat", "Int") and b.ty in ("Nat", "Int"):
+                    if a.ty != b.ty:
+                        a, b = self.toInt(a), self.toInt(b)
+                    ty = a.ty
+                    return self.bind2(a, b, lambda x, y: f"({f.id} {paren(x)} {paren(y)})", ty)
         if isinstance(node, ast.List) and not node.elts:
             return E("[]", "List _")
+        if isinstance(node, ast.List):
+            es = [self.ce(x) for x in node.elts]
+            if len({x.ty for x in es}) != 1 or not all(x.pure for x in es):
+                raise Untranslatable(f"list literal {ast.unparse(node)}")
+            return E("[" + ", ".join(x.term for x in es) + "]", f"List {paren(es[0].ty)}")
+        if isinstance(node, ast.ListComp):
+            g = node.generators[0]
+            if len(node.generators) != 1 or g.ifs or g.is_async or not isinstance(g.target, ast.Name):
+                raise Untranslatable(f"comprehension shape: {ast.unparse(node)}")
+            it = self.iterator(g.iter)
+            v = g.target.id
+            if v in self.locals or v in self.ptypes or not it.ty.startswith("List "):
+                raise Untranslatable(f"comprehension variable / iterable: {ast.unparse(node)}")
+            self.ptypes[v] = elem_type(it.ty)
+            try:
+                elt = self.ce(node.elt)
+            finally:
+                del self.ptypes[v]
+            if not elt.pure:
+                raise Untranslatable(f"comprehension element that can raise: {ast.unparse(node.elt)}")
+            return self.bind1(it, lambda x: f"(List.map (fun ({v} : {elem_type(it.ty)}) => {elt.term}) {x})", f"List {paren(elt.ty)}")
+        if isinstance(node, ast.DictComp):
+            g = node.generators[0]
+            tg = g.target
+            if len(node.generators) != 1 or g.is_async or not (isinstance(tg, ast.Tuple) and len(tg.elts) == 2 and all(isinstance(e, ast.Name) for e in tg.elts)):
+                raise Untranslatable(f"comprehension shape: {ast.unparse(node)}")
+            it = self.iterator(g.iter)
+            if not it.ty.startswith("List ") or not it.pure:
+                raise Untranslatable(f"comprehension iterable: {ast.unparse(g.iter)}")
+            ety = elem_type(it.ty)
+            m = re.fullmatch(r"(.+) × (.+)", ety)
+            if not m:
+                raise Untranslatable(f"comprehension over {it.ty}: {ast.unparse(node)}")
+            # (the variables of a comprehension are local to it; they may shadow locals of the function)
+            saved = dict(getattr(self, "bound", {}))
+            self.bound = dict(saved, **{tg.elts[0].id: ("p.1", m.group(1).strip("()")), tg.elts[1].id: ("p.2", m.group(2).strip("()"))})
+            try:
+                conds = [self.truthy(self.ce(c)) for c in g.ifs]
+                k, v = self.ce(node.key), self.ce(node.value)
+            finally:
+                self.bound = saved
+            if not all(c.pure for c in conds) or not (k.pure and v.pure):
+                raise Untranslatable(f"comprehension part that can raise: {ast.unparse(node)}")
+            src = it.term
+            for c in conds:
+                src = f"(List.filter (fun (p : {ety}) => {c.term}) {src})"
+            return E(f"(List.map (fun (p : {ety}) => ({k.term}, {v.term})) {src})", f"List ({k.ty if '×' not in k.ty and '→' not in k.ty else paren(k.ty)} × {v.ty if '×' not in v.ty and '→' not in v.ty else paren(v.ty)})")
+        if isinstance(node, ast.JoinedStr):
+            parts = []
+            for v in node.values:
+                if isinstance(v, ast.FormattedValue):
+                    if v.conversion != -1 or v.format_spec is not None:
+                        raise Untranslatable(f"f-string conversion / format: {ast.unparse(node)}")
+                    v = v.value
+                e = self.ce(v)
+                if e.ty != "String" or not e.pure:
+                    raise Untranslatable(f"f-string part of type {e.ty}: {ast.unparse(node)}")
+                parts.append(e.term)
+            return E("(" + " ++ ".join(parts) + ")" if parts else '""', "String")
         raise Untranslatable(f"expression {ast.unparse(node)}")
 
     def iterator(self, node):
@@ -594,6 +724,11 @@ class Fn:
                 e = self.ce(node.args[0])
                 if e.ty == "Nat":
                     return self.bind1(e, lambda x: f"(List.range {x})", "List Nat")
+        if (isinstance(node, ast.Call) and isinstance(node.func, ast.Attribute) and node.func.attr == "items" and not node.args
+                and self.try_external(node) is None):
+            d = self.ce(node.func.value)
+            if re.fullmatch(r"List \(.+ × .+\)", d.ty):
+                return d          # a dictionary kept as the list of its items
         e = self.ce(node)
         if e.ty.startswith("Stack "):
             # iterating over a list kept as a stack visits it from the bottom
@@ -606,6 +741,16 @@ class Fn:
             return (e.term, e.ty, False)
         # e.term : Py.M (Py.M T) -> join
         return (f"({e.term} >>= id)", e.ty, False)
+
+    def num(self, e):
+        """an optional number used as a number: `None` in arithmetic / ordering / as an index is a TypeError"""
+        if e.ty in ("Option Int", "Option Nat"):
+            return self.bind1(e, lambda x: f"(Py.deref {x})", e.ty[len("Option "):], partial=True)
+        return e
+
+    def partial2(self, a, b, f, ty):
+        """like bind2 for an `f` that gives a monadic term"""
+        return E(*self._impure(self.bind2(a, b, f, ty)))
 
     def toInt(self, e):
         if e.ty == "Int":
@@ -725,6 +870,11 @@ class Fn:
                 e = self.ce(s.value)
                 self.rebound[t.id] = self.p["rebind"][t.id]
                 return self._assign(self.rebound[t.id], e, rest, k, loopk, brk)
+            binds = {}
+            if isinstance(t, ast.Name) and self.selfcall is not None and match_pattern(self.selfcall, s.value, binds):
+                return self.self_call(t.id, [binds[k] for k in sorted(binds)], after)
+            if isinstance(t, ast.Subscript) and not (isinstance(t.slice, ast.Constant) and t.slice.value is Ellipsis):
+                return self.store_index(t, self.ce(s.value), after)
             if isinstance(t, ast.Name):
                 if t.id in self.p.get("const_locals", []):
                     try:
@@ -775,6 +925,10 @@ class Fn:
                         return f"let σ := {{ σ with {loc} := {{ σ.{loc} with {t.attr} := {wrap(paren(e.term))} }} }}\n{after()}"
                     return f"{e.term} >>= fun v =>\nlet σ := {{ σ with {loc} := {{ σ.{loc} with {t.attr} := {wrap('v')} }} }}\n{after()}"
             raise Untranslatable(f"assignment target {ast.unparse(t)}")
+        if isinstance(s, ast.AugAssign) and isinstance(s.target, ast.Subscript):
+            # l[i] += e : load l[i], evaluate e, combine, store (the index expression has no effect but exceptions)
+            load = ast.Subscript(value=s.target.value, slice=s.target.slice, ctx=ast.Load())
+            return self.store_index(s.target, self.ce(ast.BinOp(left=load, op=s.op, right=s.value)), after)
         if isinstance(s, ast.AugAssign) and isinstance(s.target, ast.Name):
             e = self.ce(ast.BinOp(left=ast.Name(id=s.target.id, ctx=ast.Load()), op=s.op, right=s.value))
             return self._assign(s.target.id, e, rest, k, loopk, brk)
@@ -866,6 +1020,12 @@ class Fn:
                 self.inplace, self.row_vars = {}, set()
             self.inplace[it] = arr
             return self.cs(list(s.body) + list(rest), k, loopk, brk)
+        if isinstance(s, ast.Try) and self.p.get("part") and is_yield_try(s):
+            if rest or loopk is not None:
+                raise Untranslatable("statements after the try/yield/finally of a context manager")
+            if self.p["part"] == "enter":
+                return self.app(k)
+            raise Untranslatable("part 'exit' is translated from the finally block")
         if isinstance(s, ast.Try):
             if s.orelse or s.finalbody or len(s.handlers) != 1 or len(s.body) != 1:
                 raise Untranslatable("try statement shape")
@@ -953,6 +1113,47 @@ class Fn:
             return f"{ln} ({fuel}) σ >>= fun σ =>\n{after()}"
         raise Untranslatable(f"statement {type(s).__name__}: {ast.unparse(s)[:60]}")
 
+    def store_index(self, t, e, after):
+        """`l[i] = e` on a list local: `e`, then `i`, then the update (IndexError out of range)"""
+        if not (isinstance(t.value, ast.Name) and self.locals.get(t.value.id, "").startswith("List ")):
+            raise Untranslatable(f"index assignment on {ast.unparse(t.value)} (not a list local)")
+        nm = t.value.id
+        ety = elem_type(self.locals[nm])
+        i = self.num(self.ce(t.slice))
+        if i.ty not in ("Nat", "Int"):
+            raise Untranslatable(f"index of type {i.ty}")
+        if ety == "Int" and e.ty == "Nat":
+            e = self.toInt(e)
+        if ety == "X Rat" and e.ty in ("Nat", "Int"):
+            e = self.toX(e)
+        if e.ty != ety:
+            raise Untranslatable(f"'{nm}' has elements of type {ety}, assigned {e.ty}")
+        prim = "Py.setNat" if i.ty == "Nat" else "Py.setInt"
+        upd = self.partial2(e, i, lambda a, b: f"({prim} σ.{nm} {b} {a})", self.locals[nm])
+        return f"{upd.term} >>= fun v =>\nlet σ := {{ σ with {nm} := v }}\n{after()}"
+
+    def self_call(self, target, argnodes, after):
+        """`target = F(args)`: run the function itself with one unit of fuel less, take its value, copy back the
+        lists it mutates in place"""
+        if not self.ret_ty or self.locals.get(target) != self.ret_ty:
+            raise Untranslatable(f"recursive call: '{target}' must have the return type {self.ret_ty}")
+        if len(argnodes) != len(self.params):
+            raise Untranslatable("recursive call: one hole per parameter expected")
+        args, wb = [], []
+        for (pn, pt), node in zip(self.params, argnodes):
+            a = self.ce(node)
+            if not a.pure or a.ty != pt:
+                raise Untranslatable(f"recursive call: argument for '{pn}' has type {a.ty} (expected a pure {pt})")
+            args.append(paren(a.term))
+            if pn in self.p.get("inout", {}):
+                if not (isinstance(node, ast.Name) and node.id in self.locals):
+                    raise Untranslatable(f"recursive call: in-place parameter '{pn}' needs a local as argument")
+                wb.append(f"{node.id} := r.{self.p['inout'][pn]}")
+        self.recursive = True
+        wb.append(f"{target} := v")
+        return (f"{self.name}.rec fuel {' '.join(args)} {{}} >>= fun r =>\nPy.deref r.ret >>= fun v =>\n"
+                f"let σ := {{ σ with {', '.join(wb)} }}\n{after()}")
+
     def _let(self, name, e):
         """`let σ := { σ with name := e }` for a pure e, with the coercions of an assignment"""
         if name not in self.locals:
@@ -1006,7 +1207,12 @@ class Fn:
     # ---------------------------------------------------------------- whole function
     def translate(self):
         Fn._n = 0
-        body = self.cs(self.fdef.body, "Except.ok")
+        stmts = self.fdef.body
+        if self.p.get("part") == "exit":
+            if not (stmts and isinstance(stmts[-1], ast.Try) and is_yield_try(stmts[-1])):
+                raise Untranslatable("part 'exit': the function does not end in try: yield / finally:")
+            stmts = stmts[-1].finalbody
+        body = self.cs(stmts, "Except.ok")
         for loc, par in self.p.get("init", {}).items():
             body = f"let σ := {{ σ with {loc} := {par} }}\n{body}"
         fields = "\n".join(f"  {n} : {t.replace('Stack ', 'List ')} := default" for n, t in self.locals.items())
@@ -1024,6 +1230,19 @@ class Fn:
                     a = re.sub(re.escape(ln) + r"(?![\w])(?! \()", f"{ln} {pnames}", a) if False else a
             out.append(a + "\n")
         text = "\n".join(out)
+        if getattr(self, "recursive", False):
+            if self.nloop:
+                raise Untranslatable("loops in a self-recursive function")
+            if not diverts(self.fdef.body) or any(isinstance(n, ast.Return) and n.value is None for n in ast.walk(self.fdef)):
+                raise Untranslatable("a self-recursive function must end every path in `return <value>`")
+            if "rec_fuel" not in self.p:
+                raise Untranslatable("no bound `rec_fuel` for the recursion depth")
+            sig = " → ".join(f"({n} : {t})" for n, t in self.params)
+            rec = (f"def {self.name}.rec : Nat → {sig} → {self.name}.S → Py.M {self.name}.S\n"
+                   f"  | 0, {', '.join('_' for _ in self.params)}, _ => .error .fuel\n"
+                   f"  | fuel + 1, {', '.join(n for n, _ in self.params)}, σ =>\n{ind(body, 4)}\n\n")
+            main = f"def {self.name}.run {params} (σ : {self.name}.S) : Py.M {self.name}.S :=\n  {self.name}.rec ({self.p['rec_fuel']}) {pnames} σ\n"
+            return text + rec + main
         main = f"def {self.name}.run {params} (σ : {self.name}.S) : Py.M {self.name}.S :=\n{ind(body)}\n"
         if params:
             # thread the parameters to the loop functions
@@ -1032,6 +1251,12 @@ class Fn:
                 main = re.sub(re.escape(ln) + r"(?!\d)", f"{ln} {pnames}", main)
                 text = re.sub(r"(?<!def )" + re.escape(ln) + r"(?!\d)", f"{ln} {pnames}", text)
         return text + main
+
+
+def is_yield_try(s):
+    """`try: yield` with a `finally` block and nothing else"""
+    return (len(s.body) == 1 and isinstance(s.body[0], ast.Expr) and isinstance(s.body[0].value, ast.Yield)
+            and s.body[0].value.value is None and not s.handlers and not s.orelse and bool(s.finalbody))
 
 
 def diverts(stmts):
@@ -1065,7 +1290,7 @@ def generate(profiles, files):
                  *[f"import {m}" for m in meta["imports"]], "",
                  "set_option linter.unusedVariables false", "", "namespace Gen.Code", ""]
         for prof in [p for p in profiles if p["file"] == fname]:
-            key = f"code:{prof['module']}.{prof['object']}"
+            key = f"code:{prof['module']}.{prof['object']}" + (f"#{prof['part']}" if prof.get("part") else "")
             try:
                 mod = importlib.import_module(prof["module"])
                 obj = mod
